@@ -30,8 +30,14 @@ pub fn run() {
             rt.block_on(async {
                 match ws.as_slice() {
                     ["open", ..] | ["reopen", ..] => {
-                        if ws.len() == 4 {
+                        if ws.len() >= 4 {
                             params = (n(ws[1]), n(ws[2]), n(ws[3]));
+                        }
+                        if ws[0] == "open" {
+                            match ws.get(4).and_then(|g| g.strip_prefix("geom=")) {
+                                Some(g) => std::env::set_var("RNACOS_VERIF_LOG_GEOMETRY", g),
+                                None => std::env::remove_var("RNACOS_VERIF_LOG_GEOMETRY"),
+                            }
                         }
                         mgr = None;
                         match LogInnerManager::init(path.clone(), params.0, params.1, params.2).await {
